@@ -94,104 +94,7 @@ func genC08(t *core.Tape, tier string) *Scenario {
 		if concurrent {
 			p.Task = i % 2
 		}
-		streaming := !(c.Proto == PConnect && p.Kind == KUnary)
-		switch t.Pick([]int{5, 2, 2}, "badness") {
-		case 1: // a corrupt compressed request straight into the shared handler
-			alg := supportedBy(&h)[t.Choose(1+len(h.Comp), "raw.alg")]
-			payload := ref.EncodeBytesValue(codec, compressible(t, 200))
-			comp := compressWith(alg, payload)
-			kind := t.Choose(5, "corrupt.kind")
-			switch kind {
-			case 4: // only the trailing checksum is wrong: the data decompresses, the final Read fails
-				comp = append([]byte(nil), comp...)
-				comp[len(comp)-2] ^= 0x01
-			case 0:
-				comp = append([]byte(nil), comp...)
-				comp[len(comp)/2] ^= 0x5a
-			case 1:
-				comp = comp[:len(comp)/2]
-			case 2:
-				other := "gzip"
-				if alg == "gzip" {
-					other = "a"
-				}
-				comp = compressWith(other, payload)
-			case 3: // bomb: expands far beyond the read limit
-				if alg == "gzip" {
-					comp = gzipBytes(make([]byte, 4<<20))
-				} else {
-					comp = rleEncode(alg, make([]byte, 4<<20))
-				}
-			}
-			o := ref.EncOpts{Encoding: alg}
-			hdr := ref.RequestHeader(ref.Proto(c.Proto), streaming, codec, o, "", nil)
-			var body []byte
-			if streaming {
-				body = ref.AppendEnvelope(nil, ref.FlagCompressed, comp)
-			} else {
-				body = comp
-			}
-			p.Raw = &RawReq{Method: "POST", Header: hdr, Body: body}
-			p.K.HTTP2 = true
-			p.bad = fmt.Sprintf("corrupt-request-%d", kind)
-			sc.Notes["bad_corrupt_request"]++
-		case 2: // a corrupt compressed response to the shared client
-			alg := append([]string{"gzip"}, c.Accept...)[t.Choose(1+len(c.Accept), "can.alg")]
-			payload := ref.EncodeBytesValue(codec, compressible(t, 200))
-			comp := compressWith(alg, payload)
-			kind := t.Choose(4, "corrupt.kind")
-			switch kind {
-			case 3:
-				comp = append([]byte(nil), comp...)
-				comp[len(comp)-2] ^= 0x01
-			case 0:
-				comp = append([]byte(nil), comp...)
-				comp[len(comp)/2] ^= 0x5a
-			case 1:
-				comp = comp[:len(comp)/2]
-			case 2:
-				other := "gzip"
-				if alg == "gzip" {
-					other = "b"
-				}
-				comp = compressWith(other, payload)
-			}
-			ct := ref.ContentType(ref.Proto(c.Proto), streaming, codec, false)
-			hdr := http.Header{"Content-Type": {ct}}
-			var body []byte
-			var trailer http.Header
-			switch {
-			case !streaming:
-				hdr["Content-Encoding"] = []string{alg}
-				body = comp
-			case c.Proto == PConnect:
-				hdr["Connect-Content-Encoding"] = []string{alg}
-				body = ref.AppendEnvelope(nil, ref.FlagCompressed, comp)
-				body = ref.AppendEnvelope(body, ref.FlagEndStream, []byte("{}"))
-			case c.Proto == PGRPCWeb:
-				hdr["Grpc-Encoding"] = []string{alg}
-				body = ref.AppendEnvelope(nil, ref.FlagCompressed, comp)
-				body = ref.AppendEnvelope(body, ref.FlagTrailers, []byte("grpc-status: 0\r\n"))
-			default:
-				hdr["Grpc-Encoding"] = []string{alg}
-				body = ref.AppendEnvelope(nil, ref.FlagCompressed, comp)
-				trailer = http.Header{"Grpc-Status": {"0"}}
-			}
-			p.Canned = &simhttp.Canned{Status: 200, Header: hdr, Body: body, Trailer: trailer}
-			if p.Kind == KBidi {
-				p.Split = false
-				var prog []COp
-				for j := range p.ReqMsgs {
-					prog = append(prog, COp{Op: "send", Arg: j})
-				}
-				p.CProg = append(prog, COp{Op: "closereq"}, COp{Op: "recvall"}, COp{Op: "closeresp"})
-				p.CProgRcv = nil
-			}
-			p.bad = fmt.Sprintf("corrupt-response-%d", kind)
-			sc.Notes["bad_corrupt_response"]++
-		default:
-			sc.Notes["good_calls"]++
-		}
+		makeBad(t, sc, p, &c, &h, codec, t.Pick([]int{5, 2, 2}, "badness"))
 		if !p.Split {
 			earlyExitKnobs(p) // a call may fail early (corrupt neighbour, injected failure)
 		}
@@ -206,6 +109,110 @@ func genC08(t *core.Tape, tier string) *Scenario {
 		sc.Notes["compressor_fault_planned"]++
 	}
 	return sc
+}
+
+// makeBad turns a planned call into a corrupt compressed request served
+// straight into the shared handler (badness 1) or a call answered by a
+// corrupt compressed response (badness 2); badness 0 leaves it valid.
+func makeBad(t *core.Tape, sc *Scenario, p *CallPlan, c *ClientCfg, h *HandlerCfg, codec string, badness int) {
+	streaming := !(c.Proto == PConnect && p.Kind == KUnary)
+	switch badness {
+	case 1: // a corrupt compressed request straight into the shared handler
+		alg := supportedBy(h)[t.Choose(1+len(h.Comp), "raw.alg")]
+		payload := ref.EncodeBytesValue(codec, compressible(t, 200))
+		comp := compressWith(alg, payload)
+		kind := t.Choose(5, "corrupt.kind")
+		switch kind {
+		case 4: // only the trailing checksum is wrong: the data decompresses, the final Read fails
+			comp = append([]byte(nil), comp...)
+			comp[len(comp)-2] ^= 0x01
+		case 0:
+			comp = append([]byte(nil), comp...)
+			comp[len(comp)/2] ^= 0x5a
+		case 1:
+			comp = comp[:len(comp)/2]
+		case 2:
+			other := "gzip"
+			if alg == "gzip" {
+				other = "a"
+			}
+			comp = compressWith(other, payload)
+		case 3: // bomb: expands far beyond the read limit
+			if alg == "gzip" {
+				comp = gzipBytes(make([]byte, 4<<20))
+			} else {
+				comp = rleEncode(alg, make([]byte, 4<<20))
+			}
+		}
+		o := ref.EncOpts{Encoding: alg}
+		hdr := ref.RequestHeader(ref.Proto(c.Proto), streaming, codec, o, "", nil)
+		var body []byte
+		if streaming {
+			body = ref.AppendEnvelope(nil, ref.FlagCompressed, comp)
+		} else {
+			body = comp
+		}
+		p.Raw = &RawReq{Method: "POST", Header: hdr, Body: body}
+		p.K.HTTP2 = true
+		p.bad = fmt.Sprintf("corrupt-request-%d", kind)
+		sc.Notes["bad_corrupt_request"]++
+	case 2: // a corrupt compressed response to the shared client
+		alg := append([]string{"gzip"}, c.Accept...)[t.Choose(1+len(c.Accept), "can.alg")]
+		payload := ref.EncodeBytesValue(codec, compressible(t, 200))
+		comp := compressWith(alg, payload)
+		kind := t.Choose(4, "corrupt.kind")
+		switch kind {
+		case 3:
+			comp = append([]byte(nil), comp...)
+			comp[len(comp)-2] ^= 0x01
+		case 0:
+			comp = append([]byte(nil), comp...)
+			comp[len(comp)/2] ^= 0x5a
+		case 1:
+			comp = comp[:len(comp)/2]
+		case 2:
+			other := "gzip"
+			if alg == "gzip" {
+				other = "b"
+			}
+			comp = compressWith(other, payload)
+		}
+		ct := ref.ContentType(ref.Proto(c.Proto), streaming, codec, false)
+		hdr := http.Header{"Content-Type": {ct}}
+		var body []byte
+		var trailer http.Header
+		switch {
+		case !streaming:
+			hdr["Content-Encoding"] = []string{alg}
+			body = comp
+		case c.Proto == PConnect:
+			hdr["Connect-Content-Encoding"] = []string{alg}
+			body = ref.AppendEnvelope(nil, ref.FlagCompressed, comp)
+			body = ref.AppendEnvelope(body, ref.FlagEndStream, []byte("{}"))
+		case c.Proto == PGRPCWeb:
+			hdr["Grpc-Encoding"] = []string{alg}
+			body = ref.AppendEnvelope(nil, ref.FlagCompressed, comp)
+			body = ref.AppendEnvelope(body, ref.FlagTrailers, []byte("grpc-status: 0\r\n"))
+		default:
+			hdr["Grpc-Encoding"] = []string{alg}
+			body = ref.AppendEnvelope(nil, ref.FlagCompressed, comp)
+			trailer = http.Header{"Grpc-Status": {"0"}}
+		}
+		p.Canned = &simhttp.Canned{Status: 200, Header: hdr, Body: body, Trailer: trailer}
+		if p.Kind == KBidi {
+			p.Split = false
+			var prog []COp
+			for j := range p.ReqMsgs {
+				prog = append(prog, COp{Op: "send", Arg: j})
+			}
+			p.CProg = append(prog, COp{Op: "closereq"}, COp{Op: "recvall"}, COp{Op: "closeresp"})
+			p.CProgRcv = nil
+		}
+		p.bad = fmt.Sprintf("corrupt-response-%d", kind)
+		sc.Notes["bad_corrupt_response"]++
+	default:
+		sc.Notes["good_calls"]++
+	}
 }
 
 func acceptHeaderName(proto Proto, streaming bool) string {
@@ -247,7 +254,7 @@ func checkC08(w *World, st core.Status, r *RunResult) []Violation {
 	}
 	faultFired := 0
 	for _, a := range w.algos {
-		if a.fault.At > 0 && a.counts[a.fault.Op] >= a.fault.At {
+		if a.fault.At > 0 && a.counts[opIndex(a.fault.Op)] >= a.fault.At {
 			faultFired++
 		}
 		for _, v := range a.Violations {
